@@ -122,6 +122,27 @@ def attrWf (a : Attr) : Bool :=
   | .enm vs d => nodupB vs && vs.contains d
   | _ => true
 
+/-! ### who lists a signal: every signal of a tree with its owner (`Owner`, Core) -/
+
+mutual
+  def sigOwners (o : Owner) : Sig → List (Id × Owner)
+    | .mk e _ body => (e.id, o) :: bodyOwners e.id body
+  def bodyOwners (self : Id) : Body → List (Id × Owner)
+    | .std _ _ => []
+    | .enm _ => []
+    | .mux _ kids => kidsOwners self kids
+  def kidsOwners (self : Id) : List Kid → List (Id × Owner)
+    | [] => []
+    | .mk s _ _ :: r => sigOwners (.sig self) s ++ kidsOwners self r
+end
+
+def msgOwners (m : Msg) : List (Id × Owner) := m.sigs.flatMap fun p => sigOwners (.msg m.e.id) p.1
+
+/-- every signal of the network (top-level signals and, recursively, the children of the
+    multiplexers) with the message / multiplexer that lists it -/
+def netOwners (n : Net) : List (Id × Owner) :=
+  n.buses.flatMap fun b => b.ifaces.flatMap fun i => i.msgs.flatMap msgOwners
+
 def ifaceKeys (n : Net) : List (Id × Nat) := n.buses.flatMap fun b => b.ifaces.map fun i => (i.node, i.num)
 def msgIds (n : Net) : List Id := n.buses.flatMap fun b => b.ifaces.flatMap fun i => i.msgs.map (·.e.id)
 
@@ -142,7 +163,10 @@ def wf (n : Net) : Bool :=
   n.buses.all (busWf n.t) &&
   nodupB (n.buses.map (·.e.id)) &&
   decide (ifaceKeys n).Nodup &&
-  nodupB (msgIds n)
+  nodupB (msgIds n) &&
+  -- the signals of the whole network, nested children included, have distinct entity ids
+  -- (the public API draws them at random; the loader refuses an id listed by two parents)
+  nodupB ((netOwners n).map (·.1))
 
 /-- decidable: what networks built through the public API satisfy -/
 def NetWF (n : Net) : Prop := wf n = true
